@@ -6,6 +6,7 @@ import (
 	"encoding/json"
 	"fmt"
 	"os"
+	"strconv"
 	"strings"
 	"time"
 
@@ -57,6 +58,12 @@ func RunWorker(prop, tier string, shard, nshards int, deadline time.Time) int {
 	rl := newRaceLog()
 	raceSeen := map[string]bool{}
 	for _, pl := range pf(tier) {
+		if b, err := strconv.Atoi(os.Getenv("VERIF_BOUND")); err == nil {
+			pl.Bound = b // experiments: override the preemption bound (-1 = unbounded)
+		}
+		if only := os.Getenv("VERIF_SCENARIO"); only != "" && only != pl.Sc.Name {
+			continue
+		}
 		sc := pl.Sc
 		done.Bounds[sc.Name] = pl.Bound
 		stats := NewStats()
@@ -217,12 +224,16 @@ func Replay(prop, scenario string, choices []int) int {
 func init() {
 	plans["C16"] = func(tier string) []Plan {
 		var out []Plan
-		bound := 2
-		if tier == "thorough" {
-			bound = 3
-		}
 		for _, sp := range c16Specs() {
-			if tier != "thorough" && sp.name == "X6" {
+			bound := 2
+			if tier == "thorough" {
+				switch sp.name {
+				case "X1", "X2", "X3", "X5", "X6":
+					bound = -1 // unbounded: the happens-before state cache makes the full schedule space finite and small
+				default:
+					bound = 4
+				}
+			} else if sp.name == "X6" {
 				continue
 			}
 			out = append(out, Plan{Sc: c16Scenario(sp), Bound: bound})
